@@ -79,6 +79,13 @@ def add_decoys(files, placed, kind, seed):
                 q = os.path.join(d, sub, base)
                 world.write_file(q, fake)
                 out.append(q)
+        elif kind == "longer" and data:
+            # same name, the true bytes followed by a tail: verifies as a
+            # prefix but has the wrong length
+            for sub in ("!first", "~last"):
+                q = os.path.join(d, sub, base)
+                world.write_file(q, data + b"tail")
+                out.append(q)
         elif kind == "unrelated":
             world.write_file(os.path.join(d, "unrelated_" + base),
                              data + b"x")
@@ -138,7 +145,10 @@ class RebuildCheck:
                 "again, a second metafile sharing file names) into one "
                 "destination",
                 "a decoy is 'never placed' only if it differs from the true "
-                "file in every byte; partially verifying decoys are not judged",
+                "file in every byte; partially verifying decoys are not judged; "
+                "a same-named candidate that is the true file plus a tail must "
+                "never be written (wrong length); decoys are tried in both "
+                "listing orders",
                 "destination is disjoint from search directories and metafiles",
             ],
             "C19": [
@@ -146,7 +156,9 @@ class RebuildCheck:
                 "(+ final file name) over {d, '..', '.', '', absolute path "
                 "inside the sandbox, 'a/../../b', '../..', a sibling directory "
                 "whose name extends the destination's name} and a 12-deep '..' "
-                "chain; destination 20 levels below the sandbox root (cases with more than 20 '..' in total are skipped) so that "
+                "chain; each also with a zero-length file; plus benign metafiles "
+                "into a destination that already contains a symlink leading "
+                "outside; destination 20 levels below the sandbox root (cases with more than 20 '..' in total are skipped) so that "
                 "escapes stay observable inside the sandbox",
                 "raising, skipping or sanitising are all acceptable; only "
                 "effects outside the destination are judged (snapshot + audit "
@@ -368,12 +380,18 @@ class RebuildCheck:
             files = world.files_of(w, seed)
             tree = dict(files)
             for pre in itertools.product(pre_alpha, repeat=n):
-                for dk in ("none", "decoy"):
+                for dk, order in (("none", "sorted"), ("decoy", "sorted"),
+                                  ("decoy", "reversed"), ("longer", "sorted"),
+                                  ("longer", "reversed")):
+                    if dk == "longer" and any(p != "absent" for p in pre) \
+                            and quick:
+                        continue
                     found += self.c14_history(w, files, tree, fam, pre, dk,
-                                              seed, res, quick)
+                                              seed, res, quick, order)
         return found
 
-    def c14_history(self, w, files, tree, fam, pre, dk, seed, res, quick):
+    def c14_history(self, w, files, tree, fam, pre, dk, seed, res, quick,
+                    order="sorted"):
         P, B = w["P"], w["B"]
         found = []
         sb = world.fresh_dir("c14_")
@@ -424,7 +442,7 @@ class RebuildCheck:
             world.write_file(p, body)
         world.write_file(os.path.join(dest, "unrelated.bin"), b"mine")
         decoy_bytes = set()
-        for q in decoys:
+        for q in (decoys if dk == "decoy" else []):
             with open(q, "rb") as f:
                 decoy_bytes.add(f.read())
         hist = [("m1", "lib"), ("m1", "lib"), ("m2", "lib")] if quick else \
@@ -432,7 +450,8 @@ class RebuildCheck:
         outside_before = world.snapshot(sb)
         for step, (which, route) in enumerate(hist):
             before = world.read_tree(dest)
-            with seams.Audit(None) as audit:
+            with seams.Audit(None) as audit, seams.listing_order(order,
+                                                                 under=sb):
                 st, cnt = run_rebuild([mp if which == "m1" else mp2], dirs,
                                       dest, route)
             after = world.read_tree(dest)
@@ -501,7 +520,7 @@ class RebuildCheck:
                               f"decoy={dk}",
                               {"kind": "prestate", "world": w, "family": fam,
                                "pre": list(pre), "decoy": dk, "seed": seed,
-                               "quick": quick}, d))
+                               "quick": quick, "listing": order}, d))
         shutil.rmtree(sb, ignore_errors=True)
         return found
 
@@ -532,11 +551,26 @@ class RebuildCheck:
         world.write_file(os.path.join(search, "sub", "b"), data)
         if name not in ("", ".", "..") and "/" not in name:
             world.write_file(os.path.join(search, "n", name), data)
+        world.write_file(os.path.join(search, "empty", "f"), b"")
         n = 0
+        variants = []
         for seq in elem_seqs:
             for last in lasts:
                 for single in ((False, True) if not seq and last == "f"
                                else (False,)):
+                    variants.append((seq, last, single, data, None))
+                if last == "f":
+                    # the same with a zero-length file (separate copy site)
+                    variants.append((seq, last, False, b"", None))
+        if name == "top":
+            # benign metafile, but the destination already contains a symlink
+            # that leads outside
+            for link_at in ("top", "top/d"):
+                for body in (data, b""):
+                    variants.append((("d",), "f", False, body, link_at))
+        for seq, last, single, data, link_at in variants:
+            if True:
+                if True:
                     ups = sum(part.split("/").count("..")
                               for part in (name,) + tuple(seq) + (last,))
                     if ups > 20:
@@ -546,6 +580,12 @@ class RebuildCheck:
                     n += 1
                     dest = os.path.join(deep, f"dest{n}")
                     os.mkdir(dest)
+                    if link_at:
+                        outside = os.path.join(sb, f"outside{n}")
+                        os.mkdir(outside)
+                        lp = os.path.join(dest, link_at)
+                        os.makedirs(os.path.dirname(lp), exist_ok=True)
+                        os.symlink(outside, lp)
                     # <SIBLING> = a directory next to the destination whose
                     # name has the destination's name as a prefix
                     sib = "../" + os.path.basename(dest) + "x"
@@ -593,11 +633,16 @@ class RebuildCheck:
                     if prob:
                         hostile = "name" if name != "top" else (
                             "last-element" if last != "f" else "path-element")
+                        if link_at:
+                            hostile = "symlink-in-destination"
+                        if not data:
+                            hostile += "+empty-file"
                         found.append((
                             f"C19|v{ver}|{prob}|hostile-{hostile}",
                             {"kind": "hostile", "version": ver,
                              "ni": g["ni"], "seq": list(seq), "last": last,
-                             "single": single, "seed": seed},
+                             "single": single, "seed": seed,
+                             "empty": not data, "link": link_at},
                             {"changed": ch[:5], "events": bad_ev[:3]}))
                         # clean escaped files so that later cases start clean
                         for k in ch:
@@ -671,13 +716,16 @@ class RebuildCheck:
                 {"seed": case["seed"], "version": case["version"],
                  "ni": case["ni"]}, res)
                 if f[1]["seq"] == case["seq"] and f[1]["last"] == case["last"]
-                and f[1]["single"] == case["single"]]
+                and f[1]["single"] == case["single"]
+                and f[1].get("empty") == case.get("empty")
+                and f[1].get("link") == case.get("link")]
         elif kind == "prestate":
             w = case["world"]
             files = world.files_of(w, case["seed"])
             found = self.c14_history(w, files, dict(files), case["family"],
                                      tuple(case["pre"]), case["decoy"],
-                                     case["seed"], res, case.get("quick", True))
+                                     case["seed"], res, case.get("quick", True),
+                                     case.get("listing", "sorted"))
         elif kind == "batch":
             found = self.run_batch({"seed": case["seed"]}, res)
         else:
